@@ -94,6 +94,7 @@ func Plans() map[string]*Plan {
 		p.LogsPerTxn = [2]int{0, 4}
 		p.AutoP = 0.3
 		p.SkipNameCheckP = 0.5
+		p.FwdLogP = 0.15
 		ps["C03"] = &Plan{Prop: "C03", Level: "exploration",
 			Parts: []Part{turnPart("C03", "S-TURN/deep-reads", 9000, 900000, p, RunOpts{DeepReads: true})},
 			Rule:  "S-TURN histories (seeded; 1-2 handles, 4-22 ops, all record kinds, range/auto/full compaction, swarm Config); a run is non-trivial when a raw merged view over >=2 tables was compared and at least one seek was checked; distinct = distinct (interleaving hash, list versions, probe vector)",
@@ -103,6 +104,8 @@ func Plans() map[string]*Plan {
 	{
 		p := baseProfile()
 		p.BadTxn = 0.05
+		p.PrefixNamesP = 0.15
+		p.FwdLogP = 0.05
 		ps["C04"] = &Plan{Prop: "C04", Level: "exploration",
 			Parts: []Part{
 				concPart("C04", "S-CONC", 40000, 4000000, p, RunOpts{Porcupine: true}),
@@ -141,6 +144,7 @@ func Plans() map[string]*Plan {
 	{
 		p := baseProfile()
 		p.W = map[string]int{OpAdd: 8, OpAddMulti: 1, OpCompactRange: 5, OpCompactAll: 2, OpAutoCompact: 2, OpReopen: 1, OpSetAuto: 1}
+		p.FwdLogP = 0.2
 		p.MinOps, p.MaxOps = 5, 28
 		p.HandlesPerTask = 2
 		p.SmallBlocks = true
@@ -229,7 +233,7 @@ func Plans() map[string]*Plan {
 		p.Names = append(append([]string{}, prefixNames...), badNames[:3]...)
 		p.ForceNameCheck = true
 		p.Logs = false
-		p.W = map[string]int{OpAdd: 10, OpAddMulti: 5, OpCompactAll: 1, OpReopen: 1, OpAutoCompact: 1}
+		p.W = map[string]int{OpAdd: 10, OpAddMulti: 5, OpCompactAll: 1, OpReopen: 1, OpAutoCompact: 1, OpBegin: 3, OpCommit: 3, OpAbort: 1}
 		p.MinOps, p.MaxOps = 3, 18
 		p.HandlesPerTask = 2
 		p.RefsPerTxn = [2]int{1, 3}
@@ -246,6 +250,7 @@ func Plans() map[string]*Plan {
 		p.HandlesPerTask = 2
 		p.LogsPerTxn = [2]int{1, 4}
 		p.RefsPerTxn = [2]int{0, 2}
+		p.FwdLogP = 0.15
 		ps["C13"] = &Plan{Prop: "C13", Level: "exploration",
 			Parts: []Part{turnPart("C13", "S-TURN/expiry", 20000, 2000000, p, RunOpts{})},
 			Rule:  "S-TURN stacks with several log entries per ref across tables; expiry configurations with each limit unset/below/inside/equal/above; non-trivial = an expiry compaction committed; distinct = distinct event hash",
@@ -257,7 +262,9 @@ func Plans() map[string]*Plan {
 		p.BadTxn = 0.2
 		p.W = map[string]int{OpAdd: 8, OpAddMulti: 3, OpCompactAll: 3, OpCompactRange: 3, OpAutoCompact: 2, OpExpire: 1, OpClean: 3, OpReopen: 1, OpClose: 1, OpBegin: 2, OpCommit: 1, OpAbort: 1}
 		p.InitMax = 4
+		p.PrefixNamesP = 0.35
 		q := baseProfile()
+		q.PrefixNamesP = 0.35
 		q.BadTxn = 0.2
 		q.W = map[string]int{OpAdd: 8, OpAddMulti: 3, OpCompactAll: 2, OpClean: 4, OpReopen: 2, OpCompactRange: 2, OpBegin: 2, OpCommit: 1, OpAbort: 2}
 		q.MinOps, q.MaxOps = 3, 16
@@ -292,10 +299,19 @@ func Plans() map[string]*Plan {
 				{Name: "S-GROW", Quick: 400, Thorough: 20000, Gen: func(seed uint64) *RunSpec { return GenGrow("C17", seed, 1024) }},
 				{Name: "S-GROW/large", Quick: 16, Thorough: 3000, Gen: func(seed uint64) *RunSpec { return GenGrow("C17", seed, 4096) }},
 				turnPart("C17", "S-TURN/auto-compaction", 6000, 600000, p, RunOpts{}),
+				concPart("C17", "S-CONC/auto-compaction", 12000, 1200000, func() *Profile {
+					q := baseProfile()
+					q.W = map[string]int{OpAdd: 14, OpAutoCompact: 2, OpCompactRange: 1, OpBegin: 1, OpAbort: 1}
+					q.MinTasks, q.MaxTasks = 2, 3
+					q.MinOps, q.MaxOps = 4, 14
+					q.AutoP = 0.9
+					q.RefsPerTxn = [2]int{1, 6}
+					return q
+				}(), RunOpts{}),
 			},
 			Rule: "S-GROW: single writer, N in [64,4096] transactions of identical table size (verified from the disk at each commit; payload shape and Config vary per run), depth <= 2*log2(N) after every Add and EntriesWritten <= N*log2(N)*entriesPerTxn at the end; every auto-compaction decision is compared with the size-class rule computed from file sizes on the simulated disk (skipped when whole-file and payload readings classify differently); S-TURN histories with auto-compaction for the valid-range/progress monitor. non-trivial = at least one auto-compaction committed or one decision judged; distinct = distinct workload shapes / event hashes",
 			Nontrivial: func(r *RunResult) bool {
-				return probeAny(r, "grow-judged-decisions", "c17-judged-decision", "auto-compaction-commit")
+				return probeAny(r, "grow-judged-decisions", "c17-judged-decision", "c17-judged-add-decision", "auto-compaction-commit")
 			}}
 	}
 	// ---- C19
